@@ -19,7 +19,7 @@ Nop == UNCHANGED vars
 
 TrInit == Init /\ l = 1
 
-TrMark      == IsEvent("Mark") /\ MarkCore(E.sec)
+TrMark      == IsEvent("APrep") /\ MarkCore(E.sec, ToSet(E.markers))
 TrToSenders == IsEvent("AToSenders") /\ ToSendersCore(E.sec, E.path)
 TrPut       == IsEvent("APut") /\ PutCore(E.sec)
 TrSendStart == IsEvent("ASendStart") /\ SendStartCore(E.sec, E.replica, E.historic, E.spare)
@@ -45,10 +45,10 @@ TrTick == /\ IsEvent("GTick")
 TrInsertBegin == /\ IsEvent("GInsertBegin")
                  /\ InsertBeginCore(E.inst, E.sender,
                        {<<"recent", E.buckets[1]>>} \cup {<<"historic", E.buckets[k]>> : k \in 2..Len(E.buckets)})
-TrStored == IsEvent("Stored") /\ \E id \in DOMAIN batch[E.inst] : StoredCore(E.inst, id, ToSet(E.secs))
+TrStored == IsEvent("Stored") /\ \E id \in DOMAIN batch[E.inst] : StoredCore(E.inst, id, ToSet(E.ids))
 TrInsertEnd == IsEvent("GInsertEnd") /\ InsertEndCore(E.inst, E.sender, E.ok)
 TrReply == IsEvent("GReply") /\ ReplyCore(E.inst, E.sec, E.discard, E.kind)
-TrInfo == (IsEvent("AggStart") \/ IsEvent("AggStop") \/ IsEvent("Fault")) /\ Nop
+TrInfo == (IsEvent("AggStart") \/ IsEvent("AggStop") \/ IsEvent("Fault") \/ IsEvent("MarkTry")) /\ Nop
 \* end of the run, after every fault was healed and the conveyor had time to drain:
 \* every marked second that was produced is settled (inserted / deliberately dropped / rejected)
 TrQuiesce == IsEvent("Quiesce") /\ (\A s \in Secs : Settled(s)) /\ Nop
